@@ -80,4 +80,10 @@ fn reg_int(reg: &mut Reg) {
     ep_int!(reg, "u_aabb_half_size".to_string(), 6, false, SymU, u8, |a| { let b: Aabb<T> = Flat::rd(&a); b.half_size().flat() });
     ep_int!(reg, "s_rect_center".to_string(), 4, true, SymS, i8, |a| { let b: Rect<T, T> = Flat::rd(&a); b.center().flat() });
     ep_int!(reg, "s_rect3_center".to_string(), 6, true, SymS, i8, |a| { let b: Rect3<T, T> = Flat::rd(&a); b.center().flat() });
+    // rectangle predicates on machine integers: both rectangles are converted to boxes first (position + extent may
+    // overflow even when an early comparison decides the answer: the translator's eager-evaluation wrappers record that)
+    fn fl<T: num_traits::Zero + num_traits::One>(x: bool) -> T { if x { T::one() } else { T::zero() } }
+    ep_int!(reg, "s_rect_contains_point".to_string(), 6, true, SymS, i8, |a| { let r: Rect<T, T> = Flat::rd(&a[..4]); let v: Vec2<T> = Flat::rd(&a[4..]); vec![fl::<T>(r.contains_point(v))] });
+    ep_int!(reg, "s_rect_contains_rect".to_string(), 8, true, SymS, i8, |a| { let r: Rect<T, T> = Flat::rd(&a[..4]); let q: Rect<T, T> = Flat::rd(&a[4..]); vec![fl::<T>(r.contains_rect(q))] });
+    ep_int!(reg, "s_rect_collides_with_rect".to_string(), 8, true, SymS, i8, |a| { let r: Rect<T, T> = Flat::rd(&a[..4]); let q: Rect<T, T> = Flat::rd(&a[4..]); vec![fl::<T>(r.collides_with_rect(q))] });
 }
